@@ -131,6 +131,22 @@ def theorem_gate(prop_file):
     return dict(theorems=theorems, closed=closed, axioms=axioms, problems=problems, wall_s=dt, output=out)
 
 
+def coqchk_gate(prop_file):
+    """Thorough tier: re-check the compiled property module and everything it depends on with the independent checker
+    and read the axioms it reports."""
+    mod = "Ebu." + prop_file[:-2].replace("/", ".")
+    rc, out, dt = sh(["coqchk", "-silent", "-o", "-Q", ".", "Ebu", mod], cwd=COQ, timeout=3000)
+    problems = []
+    if rc != 0:
+        problems.append("coqchk failed on %s:\n%s" % (mod, out[-2000:]))
+    elif "* Axioms: <none>" not in out:
+        problems.append("coqchk reports axioms for %s:\n%s" % (mod, out[-2000:]))
+    for bad in ("type-in-type: <none>", "unsafe (co)fixpoints: <none>", "positivity is assumed: <none>"):
+        if rc == 0 and bad not in out:
+            problems.append("coqchk: unexpected context summary (%s missing)" % bad)
+    return dict(problems=problems, wall_s=dt, module=mod)
+
+
 def go_build(mod, race=False):
     src = os.path.join(ROOT, "harness", "go", mod)
     binp = os.path.join(BUILD, mod + ("-race" if race else ""))
